@@ -113,7 +113,7 @@ PROPS = {
             "quick": [P("main", "asan", 2000)],
             "thorough": [P("main", "asan", 50000)],
         },
-        "require_counters": ["copies", "round_trips", "round_trips_lossless", "points_evaluated"],
+        "require_counters": ["copies", "round_trips", "round_trips_lossless", "points_evaluated", "cases_with_larger_primed_bounds"],
         "assumptions": ASSUME_COMMON,
     },
     "C11": {
